@@ -30,6 +30,10 @@ pub enum ProbeMsg {
     Flush(u32),
 }
 
+/// a message type that cannot travel (not serializable): sending it to a remote reference must be refused
+pub struct LocalOnly(pub u64);
+impl ractor::Message for LocalOnly {}
+
 pub struct Probe {
     pub x: usize,
     pub hold: bool,
@@ -93,6 +97,8 @@ impl Actor for Probe {
 pub enum ROp {
     Cast { d: usize, x: usize },
     Call { d: usize, x: usize, timeout_ms: u64 },
+    /// a message of a non-serializable type sent through the untyped cell of the proxy
+    Wrong { d: usize, x: usize },
     Pause,
     Sleep(u64),
 }
@@ -173,6 +179,11 @@ async fn caller_impl(w: W, s: u32, ops: Vec<ROp>, free: bool) {
                 let r: ActorRef<ProbeMsg> = cell.into();
                 let ok = r.cast(ProbeMsg::Cast(s, q)).is_ok();
                 verif::emit_kv("obs.send", 0, i64::from(ok), vec![kvs("s", &sn(s)), kvi("q", q as i64), kvs("k", "cast"), kvs("dir", dn[d]), kvs("x", &xn(x))]);
+            }
+            ROp::Wrong { d, x } => {
+                let Some(cell) = lookup(&w, d, x) else { continue };
+                let ok = cell.send_message(LocalOnly(7)).is_ok();
+                verif::emit_kv("obs.wrong", 0, i64::from(ok), vec![kvs("s", &sn(s)), kvs("dir", dn[d]), kvs("x", &xn(x))]);
             }
             ROp::Call { d, x, timeout_ms } => {
                 let Some(cell) = lookup(&w, d, x) else { continue };
@@ -381,7 +392,7 @@ async fn main_task(w: W, sc: Arc<Scenario>) {
 }
 
 const KEEP: &[&str] = &[
-    "obs.send", "obs.call_begin", "obs.ret", "obs.recv", "obs.reply", "obs.join", "obs.leave", "obs.spawn", "obs.cut", "proxy.fwd", "proxy.resolve",
+    "obs.send", "obs.wrong", "obs.call_begin", "obs.ret", "obs.recv", "obs.reply", "obs.join", "obs.leave", "obs.spawn", "obs.cut", "proxy.fwd", "proxy.resolve",
     "sess.fwd", "sess.reply", "sess.ctl", "cleanup.pid",
 ];
 
@@ -894,7 +905,7 @@ pub fn micro_scenarios() -> Vec<Scenario> {
         Scenario {
             hold: vec![false],
             late: false,
-            callers: vec![vec![Call { d: 0, x: 0, timeout_ms: 300 }, Cast { d: 0, x: 0 }], vec![Call { d: 1, x: 0, timeout_ms: 300 }, Cast { d: 1, x: 0 }]],
+            callers: vec![vec![Call { d: 0, x: 0, timeout_ms: 300 }, Wrong { d: 0, x: 0 }, Cast { d: 0, x: 0 }], vec![Wrong { d: 1, x: 0 }, Call { d: 1, x: 0, timeout_ms: 300 }, Cast { d: 1, x: 0 }]],
             ctl: vec![C::Join(0), C::Pause, C::Leave(0), C::Join(0)],
             cut_after_frames: None,
             relay_seed: 2,
@@ -952,6 +963,9 @@ pub fn rand_scenario(rng: &mut Rng) -> Scenario {
             left -= 1;
             let d = rng.below(2);
             let x = rng.below(total);
+            if rng.chance(1, 10) {
+                ops.push(ROp::Wrong { d, x });
+            }
             if rng.chance(2, 5) {
                 ops.push(ROp::Cast { d, x });
             } else {
